@@ -545,7 +545,12 @@ def real_manager_formulas(cname, backend, primed=False, samples=60, seed=0, decl
                     for line in ops.strip().splitlines():
                         nm, body = line.split('==', 1)
                         opsd[nm.strip()] = body.strip()
-                u = c.add_expr(fml, with_ops=bool(ops))
+                if ops or len(fml) % 3 == 0:
+                    u = c.add_expr(fml, with_ops=bool(ops))
+                elif len(fml) % 3 == 1:
+                    u = c.to_bdd(fml)                # documented synonym
+                else:
+                    (u,) = c.bdds_from(fml)          # documented: one BDD per formula
             except Exception as e:
                 if len(fails) < 6:
                     fails.append(dict(name=f'Context.add_expr accepts the documented formula on the real manager: {fml}',
